@@ -12,8 +12,26 @@ use std::time::Duration;
 
 pub const N_ADDRS: u64 = 8;
 
-fn addr(a: u64) -> IpAddr { IpAddr::V4(Ipv4Addr::new(10, 0, 0, a as u8)) }
-fn addr_id(ip: &IpAddr) -> u64 { match ip { IpAddr::V4(v) => v.octets()[3] as u64, _ => 0 } }
+/// The abstract addresses 1..N_ADDRS of Stats.tla are distinct keys; their concrete form changes from world to world:
+///   mode 0: IPv4 10.0.0.a
+///   mode 1: odd a IPv4, even a the IPv4-MAPPED IPv6 address ::ffff:10.0.0.a
+///   mode 2: 1 = 10.0.0.1, 2 = ::ffff:10.0.0.1 (same embedded IPv4, a different key), odd a > 2 IPv6 2001:db8::a, even a mapped
+static ADDR_MODE: std::sync::atomic::AtomicUsize = std::sync::atomic::AtomicUsize::new(0);
+static WORLDS: std::sync::atomic::AtomicUsize = std::sync::atomic::AtomicUsize::new(0);
+fn addr(a: u64) -> IpAddr {
+    let v4 = |x: u64| Ipv4Addr::new(10, 0, 0, x as u8);
+    match ADDR_MODE.load(std::sync::atomic::Ordering::Relaxed) {
+        0 => IpAddr::V4(v4(a)),
+        1 => if a % 2 == 1 { IpAddr::V4(v4(a)) } else { IpAddr::V6(v4(a).to_ipv6_mapped()) },
+        _ => match a {
+            1 => IpAddr::V4(v4(1)),
+            2 => IpAddr::V6(v4(1).to_ipv6_mapped()),
+            a if a % 2 == 1 => IpAddr::V6(std::net::Ipv6Addr::new(0x2001, 0xdb8, 0, 0, 0, 0, 0, a as u16)),
+            a => IpAddr::V6(v4(a).to_ipv6_mapped()),
+        },
+    }
+}
+fn addr_id(ip: &IpAddr) -> u64 { (1..=N_ADDRS).find(|a| addr(*a) == *ip).unwrap_or(0) }
 
 fn counters(c: &ClientStats) -> Vec<u64> {
     vec![c.rfc_requests as u64, c.classic_requests as u64, c.invalid_requests as u64, c.failed_send_attempts as u64,
@@ -60,6 +78,7 @@ struct World<'a> { workers: Vec<Worker>, queue: Arc<StatsQueue>, reporter: &'a m
 impl<'a> World<'a> {
     fn new(limit: usize, plant: &'a mut Plant, nworkers: usize) -> World<'a> {
         plant.reset();
+        ADDR_MODE.store(WORLDS.fetch_add(1, std::sync::atomic::Ordering::Relaxed) % 3, std::sync::atomic::Ordering::Relaxed);
         World { workers: (0..nworkers).map(|_| Worker { per: PerClientStats::with_limit_verif(limit), agg: AggregatedStats::new() }).collect(),
                 queue: plant.queue.clone(), qcap: plant.qcap, reporter: &mut plant.reporter, limit }
     }
@@ -136,7 +155,7 @@ impl<'a> World<'a> {
                              "rfc_responses_sent", "classic_responses_sent", "bytes_sent"];
                 for rec in rdr.records().flatten() {
                     let ip = col("ip_addr").and_then(|c| rec.get(c)).unwrap_or("");
-                    let id: u64 = ip.rsplit('.').next().and_then(|x| x.parse().ok()).unwrap_or(0);
+                    let id: u64 = ip.parse::<IpAddr>().map(|x| addr_id(&x)).unwrap_or(0);
                     if id >= 1 && id <= N_ADDRS {
                         for (k, name) in order.iter().enumerate() {
                             rows[id as usize - 1][k] = col(name).and_then(|c| rec.get(c)).and_then(|x| x.parse().ok()).unwrap_or(u64::MAX >> 40);
